@@ -74,7 +74,7 @@ CLAIMED['C19'] = dict(
 CLAIMED['C07'] = dict(
     category='proof',
     text='Contracts on the real Negotiated._negotiate (segment up to the paths-limit handling): hold time = minimum; asn4 / operational / link-local next hop in force iff both sides advertised them; message size 65535 iff both advertised extended message else 4096; refresh flavour; BOTH true AS numbers (ASN4 capability when the 2-byte field is AS_TRANS); families and extended-next-hop entries = exactly the received entries we advertised too (loop invariants with a ghost counter and per-append membership obligations); and on Negotiated.validate: 2/2 bad peer AS, 2/3 zero or colliding identifier, 2/6 hold time 1-2, and no refusal otherwise. Discharged by z3 for all capability combinations (if-conversion keeps the 2^12 combinations symbolic). Bounded complement: sampled (configuration, peer OPEN) pairs through the real configuration parser, OPEN encoder/decoder and Negotiated against an RFC reference negotiation computed from the wire bytes of both OPENs; OPEN > 255 bytes (RFC 9072) both ways.',
-    note='Capabilities objects are abstract in the deductive part (announced(code) as a boolean per side and code). RequirePath.setup (ADD-PATH send/receive), Open/Capabilities encode/decode and Capabilities.new are bounded only. paths-limit and multisession handling are not under contract.',
+    note='The per-family body of RequirePath.setup (ADD-PATH direction pairing, RFC 7911 section 4: we send iff we advertised send and the peer receive) is under a segment contract for all mode values; the union of families around it is bounded only. Capabilities objects are abstract in the deductive part (announced(code) as a boolean per side and code). RequirePath.setup (ADD-PATH send/receive), Open/Capabilities encode/decode and Capabilities.new are bounded only. paths-limit and multisession handling are not under contract.',
     ref='DESIGN.md §6 C07',
     technique=PYVC + '; if-conversion of pure conditionals; bounded differential against an RFC reference negotiation',
 )
